@@ -1,7 +1,7 @@
 /-
 Executable model of the change application of `octave_mcp/mcp/write.py`
 (`_is_delete_sentinel`, `_normalize_value_for_ast`, `WriteTool._apply_changes`,
-`WriteTool._apply_mutations`) and of the CLI `octave write --changes` loop (cli/main.py `write`).
+`WriteTool._apply_mutations`); the CLI `octave write --changes` goes through the same `_apply_changes`.
 Transcription of the code that exists.  Constants come from the regenerated `Gen/ChangeConsts`.
 -/
 import Octave.Model.Doc
@@ -106,36 +106,13 @@ def applyRequest (d : Doc) (r : Request) : Doc := applyMutations (applyChanges d
 /-- a history of calls (any length). -/
 def applyRequests (d : Doc) (rs : List Request) : Doc := rs.foldl applyRequest d
 
-/-! ### The CLI loop (cli/main.py `write`, `--changes`): no tri-state dispatch, no normalisation -/
+/-! ### The CLI (`octave write --changes`, cli/main.py `write`)
 
-mutual
-/-- a request value stored without normalisation: scalars are the same Python objects; a `dict` stays a
-raw Python dict (the same kind of object as the parser's nested META level, so `emit_meta` prints it as
-a nested block and `emit_value` with `str()`); a `list` stays a raw Python list (printed with `str()`). -/
-def rawVal : JVal → Val
-  | .null => .null
-  | .bool b => .bool b
-  | .int i => .int i
-  | .str s => .str s
-  | .opaque t => .opaque t
-  | .list items => .py (.list items)
-  | .obj pairs => .dict (rawPairs pairs)
-def rawPairs : List (Str × JVal) → List (Str × Val)
-  | [] => []
-  | (k, v) :: ps => (k, rawVal v) :: rawPairs ps
-end
+Since repo commit 1dc8194 the CLI parses the file, calls `WriteTool()._apply_changes(doc, json.loads(changes))`
+and emits: on the AST it IS `applyChanges` (no `mutations` parameter).  `Gen.cliApplyChangesCalls` /
+`Gen.cliHasChangesLoop` are regenerated from cli/main.py and pinned in `Props/C18` (`gen_cli_shares_apply_changes`). -/
 
-def cliSetTop (k : Str) (v : JVal) (ns : List Node) : List Node := setTop k (rawVal v) ns
-
-def cliChange (d : Doc) (c : Str × JVal) : Doc :=
-  match classify c.1 with
-  | .metaField f => { d with «meta» := dictSet d.«meta» f (rawVal c.2) }
-  | .metaWhole =>
-    match c.2 with
-    | .obj pairs => { d with «meta» := rawPairs pairs }    -- `doc.meta = value.copy()`
-    | v => { d with nodes := cliSetTop c.1 v d.nodes }
-  | .top => { d with nodes := cliSetTop c.1 c.2 d.nodes }
-
-def cliApply (d : Doc) (changes : List (Str × JVal)) : Doc := changes.foldl cliChange d
+/-- one call `octave write FILE --changes JSON` seen on the AST. -/
+def cliApply (d : Doc) (changes : List (Str × JVal)) : Doc := applyChanges d changes
 
 end Octave
